@@ -59,6 +59,13 @@ def search(res, tier, rng):
                 region = region + "+flip"
                 scns.append(sc); meta.append((region, bytes(bad), pos, mem))
                 continue
+            if rng.random() < 0.35:
+                # the last member first on the fresh decompressor: the blocks before it are decoded with the output discarded - damage in a
+                # block that is only skipped over is damage all the same (it carries history, and usually the member's first bytes)
+                for i in reversed(range(len(mem))): sc.op("cab_extract", "c0", i, "out%d" % i)
+                for i in range(len(mem)): sc.op("cab_extract", "c0", i, "out%d" % i)
+                scns.append(sc); meta.append((region + "+skip", bytes(bad), pos, mem))
+                continue
             for i in range(len(mem)):      # each member twice in a row, then all once more: a failed call must not make a later one accept the damage
                 sc.op("cab_extract", "c0", i, "out%d" % i); sc.op("cab_extract", "c0", i, "out%d" % i)
             for i in range(len(mem)): sc.op("cab_extract", "c0", i, "out%d" % i)
